@@ -67,6 +67,16 @@ Definition comb_step (o : list (string * ty) * option ty) (c : mcomb) : list (st
   | MCombAssigns ps => (fold_left assign_prop ps (fst o), snd o)
   end.
 
+(* an include element given by an expression whose type is not an object (any, in practice):
+   nothing is known about the combination - it may define any key, also those of the rows and of
+   the other combinations (from the repair of the round-8 defect on; before it only
+   `o.Loose()` was called and the known keys kept their precise types: [matrix_ty_old]) *)
+Definition comb_unknown (c : mcomb) : bool :=
+  match c with
+  | MCombExpr (Some t) => negb (is_obj t)
+  | _ => false
+  end.
+
 Definition rows_props (rows : list (string * mrow)) : list (string * ty) :=
   fold_left (fun ps nr => upsert (fst nr) (row_ty (snd nr)) ps) rows [].
 
@@ -81,7 +91,16 @@ Definition matrix_ty (m : mtx) : ty :=
       | _ => TObj [] (Some TAny)
       end
   | MInclExpr _ => TObj [] (Some TAny)
+  | MInclList cs =>
+      if existsb comb_unknown cs then TObj [] (Some TAny)
+      else let (ps, mp) := fold_left comb_step cs (o, None) in TObj ps mp
+  end.
+
+Definition matrix_ty_old (m : mtx) : ty :=
+  let o := rows_props (mt_rows m) in
+  match mt_incl m with
   | MInclList cs => let (ps, mp) := fold_left comb_step cs (o, None) in TObj ps mp
+  | _ => matrix_ty m
   end.
 
 (* ---- "less precise" on matrices: every scalar type may be replaced by a
